@@ -30,6 +30,10 @@ type elObj struct {
 	lastTo            string
 	afterStart        bool
 	terms             int
+	demoteReg         bool   // OnDemote is registered
+	demoteRegStep     uint64 // ... since this driver step (0 = before Start)
+	unheardFalls      int    // falling edges before OnDemote was registered (no callback due)
+	heardFalls        int    // falling edges with OnDemote registered, plus earlier ones whose callback ran after all
 	promotes, demotes int
 	failedStop        bool // a StopWithContext of this object returned an error (no OnDemote promised)
 	healthTick        int
@@ -112,7 +116,23 @@ func (d *Driver) newObj(in *Inst) (*elObj, error) {
 		el.OnDemote(func() { freeCb.Add(1) })
 	} else if !in.cfg.NoCallbacks {
 		el.OnPromote(func(ctx context.Context, token string) { o.onPromote(ctx, token) })
-		el.OnDemote(func() { o.onDemote() })
+		switch after := in.cfg.OnDemoteAfter; {
+		case after == 0 || after > 0 && d.now() >= after:
+			el.OnDemote(func() { o.onDemote() })
+			o.demoteReg = true
+		case after > 0:
+			// registered late, by the application, while the election is running
+			d.push(after, "action", func() {
+				if o.dead {
+					return
+				}
+				o.el.OnDemote(func() { o.onDemote() })
+				d.mu.Lock()
+				o.demoteReg, o.demoteRegStep = true, d.step
+				d.logf("register OnDemote i%d.%d", in.idx, o.gen)
+				d.mu.Unlock()
+			})
+		}
 	}
 	in.objs = append(in.objs, o)
 	in.cur = o
@@ -153,6 +173,11 @@ func (m *obsMetrics) SetIsLeader(v float64, _ prometheus.Labels) {
 		}
 		if !val {
 			o.in.fellAt = now
+			if !o.demoteReg {
+				o.unheardFalls++
+			} else {
+				o.heardFalls++
+			}
 		}
 		if val {
 			o.termToken = tok
@@ -290,6 +315,12 @@ func (o *elObj) onDemote() {
 	d.mu.Lock()
 	o.demotes++
 	o.inDemote++
+	if o.demotes > o.heardFalls && o.unheardFalls > 0 {
+		// OnDemote was registered between the end of the claim and the library's look at the
+		// callback field: that loss of leadership was heard after all
+		o.unheardFalls--
+		o.heardFalls++
+	}
 	d.h.Cbs = append(d.h.Cbs, &CbEvt{Ord: d.h.nextOrd(), Inst: in.idx, Gen: o.gen, Kind: "demote_enter", Token: stack, Term: o.demotes, T: d.now(), Step: d.step})
 	d.logf("cb i%d.%d demote_enter n=%d by=%s", in.idx, o.gen, o.demotes, stack)
 	d.mu.Unlock()
